@@ -170,10 +170,14 @@ func registerHeaps(w *World) {
 			}
 		}
 	}
-	for _, s := range []string{"Int", "Bool", sortStr, sortIface, sortSlice, sortFn} {
-		k, hs := elemHeapKey(s)
+	anyT := types.Universe.Lookup("any").Type()
+	errT := types.Universe.Lookup("error").Type()
+	_ = errT
+	for _, t := range []types.Type{types.Typ[types.Int], types.Typ[types.Bool], types.Typ[types.String], anyT,
+		types.NewSlice(types.Typ[types.Int]), types.NewSignatureType(nil, nil, nil, nil, nil, false), types.NewPointer(types.Typ[types.Int])} {
+		k, hs := elemHeapKey(t)
 		heapSorts[k] = hs
-		k, hs = cellHeapKey(s)
+		k, hs = cellHeapKey(t)
 		heapSorts[k] = hs
 	}
 }
